@@ -25,6 +25,8 @@ import copy
 from ..core import AnalysisError, Finding, attr_chain, call_name, canon, dominating_guards, norm, walk_no_nested
 from ..dataflow import ReachingDefs
 from .c04 import linear
+from ..core import helper_table
+from ..flowtools import alternatives
 
 L = "commonroad/scenario/lanelet.py"
 
@@ -238,6 +240,10 @@ def arc_lerp(repo, res):
     qn = "Lanelet.interpolate_position"
     sp = [a.arg for a in fn.args.args][1]
     rd = ReachingDefs(fn)
+    hp = helper_table(c, m, fn, repo)
+
+    def CN(e, at):
+        return canon(e, rd, at, [sp], hp)
     rets = [r for r in walk_no_nested(fn) if isinstance(r, ast.Return) and isinstance(r.value, ast.Tuple)]
     res.check("ARC-LERP", "interpolate_position returns (centre, right, left, index)", len(rets) == 1 and len(rets[0].value.elts) == 4, m, fn, "%d tuple returns" % len(rets), "the result no longer has the documented shape", qualname=qn)
     if not rets:
@@ -246,6 +252,8 @@ def arc_lerp(repo, res):
     want = ["self.center_vertices", "self.right_vertices", "self.left_vertices"]
     seen = []
     for i, (e, arrname) in enumerate(zip(elts[:3], want)):
+        # single-return helpers are inlined; the index / ratio locals are kept as names
+        e = ast.parse(canon(e, None, None, [sp], hp), mode="eval").body
         lp = is_lerp(e, rd, rets[0])
         ok = lp is not None and len(lp) == 2
         r_name = None
@@ -274,6 +282,8 @@ def arc_lerp(repo, res):
             v = ds[0].node
             ok = isinstance(v, ast.BinOp) and isinstance(v.op, ast.Div)
             if ok:
+                v = ast.parse(canon(v, rd, ds[0].stmt, [sp, iname], hp), mode="eval").body
+
                 def at(x):
                     t = canon(x, None, None, [sp])
                     if t == sp:
@@ -291,13 +301,13 @@ def arc_lerp(repo, res):
         # index search
         ids = [d for d in rd.defs(iname, rets[0])]
         inits = [d for d in ids if d.kind == "assign"]
-        ok = any(isinstance(d.node, ast.BinOp) and isinstance(d.node.op, ast.Sub) and isinstance(d.node.left, ast.Call) and call_name(d.node.left) == "np.searchsorted" and [canon(a, None, None, [sp]) for a in d.node.left.args] == ["self.distance", sp] and norm(d.node.right) == "1" for d in inits)
+        ok = any(isinstance(d.node, ast.BinOp) and isinstance(d.node.op, ast.Sub) and isinstance(d.node.left, ast.Call) and call_name(d.node.left) == "np.searchsorted" and [CN(a, d.stmt) for a in d.node.left.args] == ["self.distance", sp] and norm(d.node.right) == "1" for d in inits)
         res.check("ARC-LERP", "index search starts at searchsorted(distance, s) - 1", ok, m, fn, "index definitions: %s" % sorted(norm(d.stmt) for d in ids), "the segment is not located by the cumulative distance", qualname=qn)
         whiles = [w for w in walk_no_nested(fn) if isinstance(w, ast.While)]
         ok = len(whiles) <= 1
         for w in whiles:
-            t = canon(w.test, None, None, [sp])
-            ok = ok and t in ("not self.distance[%s] <= %s" % (iname, sp), "self.distance[%s] > %s" % (iname, sp)) and len(w.body) == 1 and norm(w.body[0]) == "%s += 1" % iname
+            t = canon(w.test, rd, w, [sp, iname], hp)
+            ok = ok and t in ("not self.distance[%s] <= %s" % (iname, sp), "%s < self.distance[%s]" % (sp, iname), "self.distance[%s] > %s" % (iname, sp)) and len(w.body) == 1 and norm(w.body[0]) in ("%s += 1" % iname, "%s = %s + 1" % (iname, iname))
         res.check("ARC-LERP", "index moves forward only while d[i] > s", ok, m, whiles[0] if whiles else fn, "while %s" % (norm(whiles[0].test) if whiles else "-"), "the index correction loop does not keep d[i] <= s", qualname=qn)
         # the precondition 0 <= s <= length is asserted
         asserts = [a for a in walk_no_nested(fn) if isinstance(a, ast.Assert)]
@@ -338,34 +348,39 @@ def merge(repo, res):
     if len(idxs) == 1 and len(firsts) == 1 and len(seconds) == 1:
         iname = next(iter(idxs))
         first, second = next(iter(firsts)), next(iter(seconds))
-        defs = [d for s in cats[:1] for d in rd.defs(iname, s)]
-        vals = sorted({norm(d.node) for d in defs if d.node is not None})
-        res.check("MERGE", "joint index is 1 (shared vertex dropped once) or 0", vals == ["0", "1"], m, fn, "%s in %s" % (iname, vals), "the joint vertex is duplicated or vertices are lost", qualname=qn)
-        for d in defs:
-            if norm(d.node) == "1":
-                guards = dominating_guards(m, d.stmt, stop=fn)
-                txt = [canon(t, None, None, []) for t, pol in guards if pol]
-                ok = any("%s.left_vertices[-1]" % first in t and "%s.left_vertices[0]" % second in t and ("isclose" in t or "allclose" in t or "array_equal" in t or "==" in t) for t in txt) or any("%s.center_vertices[-1]" % first in t and "%s.center_vertices[0]" % second in t for t in txt) or any("%s.right_vertices[-1]" % first in t and "%s.right_vertices[0]" % second in t for t in txt)
-                res.check("MERGE", "the shared vertex is dropped only if the first part ends where the second starts", ok, m, d.stmt, "idx = 1 under %s" % txt, "a vertex of the second part is dropped although the parts are not connected there", qualname=qn)
-        # which is first: the predecessor
-        fd = [d for s in cats[:1] for d in rd.defs(first, s)]
-        sd = [d for s in cats[:1] for d in rd.defs(second, s)]
         params = [a.arg for a in fn.args.args][1:]
-        ok = sorted(norm(d.node) for d in fd) == sorted(params) and sorted(norm(d.node) for d in sd) == sorted(params)
-        for d in fd:
-            iff = m.parent.get(d.stmt)
-            guards = [(iff.test, d.stmt in iff.body)] if isinstance(iff, ast.If) else []
-            me = norm(d.node)
-            other = [p for p in params if p != me][0] if me in params and len(params) == 2 else "?"
-            pos = [canon(t, None, None, []) for t, pol in guards if pol]
-            neg = [canon(t, None, None, []) for t, pol in guards if not pol]
+        # joint index: 1 exactly when the first part ends where the second starts, else 0
+        alts = alternatives(m, fn, rd, iname, cats[0], params + [first, second]) if iname.isidentifier() else []
+        vals = sorted({norm(v) for v, _c in alts if v is not None})
+        res.check("MERGE", "joint index is 1 (shared vertex dropped once) or 0", vals == ["0", "1"], m, fn, "%s in %s" % (iname, vals), "the joint vertex is duplicated or vertices are lost", qualname=qn)
+        for v, conds in alts:
+            if v is not None and norm(v) == "1":
+                txt = [t for t, pol in conds if pol]
+                ok = any(("%s.%s[-1]" % (first, w) in t and "%s.%s[0]" % (second, w) in t and ("isclose" in t or "allclose" in t or "array_equal" in t or "==" in t)) for t in txt for w in ("left_vertices", "center_vertices", "right_vertices"))
+                res.check("MERGE", "the shared vertex is dropped only if the first part ends where the second starts", ok, m, fn, "idx = 1 under %s" % txt, "a vertex of the second part is dropped although the parts are not connected there", qualname=qn)
+        # which is first: the predecessor
+        fa = alternatives(m, fn, rd, first, cats[0], params)
+        sa_ = alternatives(m, fn, rd, second, cats[0], params)
+        ok = sorted(norm(v) for v, _c in fa if v is not None) == sorted(params) and sorted(norm(v) for v, _c in sa_ if v is not None) == sorted(params)
+        for v, conds in fa:
+            if v is None:
+                ok = False
+                continue
+            me = norm(v)
+            other = [p_ for p_ in params if p_ != me][0] if me in params and len(params) == 2 else "?"
+            # only the conditions that mention both lanelets (the asserts on validity do not choose)
+            rel = [(t, pol) for t, pol in conds if ".predecessor" in t or ".successor" in t]
+            rel = [(t, pol) for t, pol in rel if not (" or " in t and t.count(" or ") >= 3)]
+            pos = [t for t, pol in rel if pol]
+            neg = [t for t, pol in rel if not pol]
             want = ("%s.lanelet_id in %s.predecessor" % (me, other), "%s.lanelet_id in %s.successor" % (other, me))
-            ok = ok and bool(guards)
+            anti = ("%s.lanelet_id in %s.predecessor" % (other, me), "%s.lanelet_id in %s.successor" % (me, other))
+            ok = ok and bool(rel)
             if pos:
-                ok = ok and all(any(w in t for w in want) for t in pos)
+                ok = ok and all(any(w in t for w in want) and not any(w in t for w in anti) for t in pos)
             if neg:
-                ok = ok and all(any(w in t for w in ("%s.lanelet_id in %s.predecessor" % (other, me), "%s.lanelet_id in %s.successor" % (me, other))) for t in neg)
-        res.check("MERGE", "the lanelet placed first is the predecessor of the other", ok, m, fn, "first part %s <- %s" % (first, sorted(norm(d.node) for d in fd)), "the parts are concatenated against the driving direction", qualname=qn)
+                ok = ok and all(any(w in t for w in anti) and not any(w in t for w in want) for t in neg)
+        res.check("MERGE", "the lanelet placed first is the predecessor of the other", ok, m, fn, "first part %s <- %s" % (first, sorted((norm(v), c_) for v, c_ in fa if v is not None)), "the parts are concatenated against the driving direction", qualname=qn)
     # constructor argument order
     ctor = [x for x in walk_no_nested(fn) if isinstance(x, ast.Call) and call_name(x) == "Lanelet"]
     init = c.methods.get("__init__")
@@ -469,8 +484,16 @@ def route(repo, res):
         counts = [p[0] if isinstance(p, tuple) else p for p in filings(il.body)]
         res.check("ROUTE-FLOW", "%s: every (path, candidate) pair is filed exactly once" % fname, bool(counts) and all(x == 1 for x in counts), m, il, "filings per control path: %s" % counts, "a path is dropped (a direct %s may end up uncovered) or filed twice" % link, qualname=qn)
         # the no-candidate branch files the path as final
-        nocand = [s for s in outer.body if isinstance(s, ast.If)]
-        ok = len(nocand) == 1 and canon(nocand[0].test, None, None, []) in ("not %s" % norm(il.iter), "len(%s) == 0" % norm(il.iter)) and len(nocand[0].body) == 1 and norm(nocand[0].body[0]) == "%s.append(%s)" % (final, pv) and il in nocand[0].orelse
+        nocand = [s for s in outer.body if isinstance(s, ast.If) and il not in list(ast.walk(s)) or (isinstance(s, ast.If) and il in s.orelse)]
+        ok = len(nocand) >= 1 and canon(nocand[0].test, None, None, []) in ("not %s" % norm(il.iter), "len(%s) == 0" % norm(il.iter))
+        if ok:
+            nb = nocand[0].body
+            files = len(nb) >= 1 and norm(nb[0]) == "%s.append(%s)" % (final, pv)
+            if il in nocand[0].orelse:
+                ok = files and len(nb) == 1
+            else:
+                # dead-end case leaves the iteration, the candidates are examined afterwards at the same level
+                ok = files and len(nb) == 2 and isinstance(nb[1], ast.Continue) and il in outer.body and outer.body.index(il) > outer.body.index(nocand[0])
         res.check("ROUTE-FLOW", "%s: a path without further %s is finished" % (fname, link), ok, m, nocand[0] if nocand else outer, norm(nocand[0].test) if nocand else "?", "dead-end paths are lost", qualname=qn)
         # extensions and their guards
         exts = [e for e in ast.walk(il) if isinstance(e, ast.BinOp) and isinstance(e.op, ast.Add) and norm(e.left) == pv and isinstance(e.right, ast.List)]
@@ -507,7 +530,7 @@ def route(repo, res):
             guards = dominating_guards(m, e, stop=fn)
             neg = [canon(t, None, None, [rng]) for t, pol in guards if not pol]
             pos = [canon(t, None, None, [rng]) for t, pol in guards if pol]
-            ext_sig.append((("%s in %s" % (xv, pv)) in neg or ("%s not in %s" % (xv, pv)) in pos, ("%s == self.lanelet_id" % xv) in neg or ("%s != self.lanelet_id" % xv) in pos, ("%s >= %s" % (lv, rng)) in neg or ("%s < %s" % (lv, rng)) in pos))
+            ext_sig.append((("%s in %s" % (xv, pv)) in neg or ("%s not in %s" % (xv, pv)) in pos, ("%s == self.lanelet_id" % xv) in neg or ("self.lanelet_id == %s" % xv) in neg or ("%s != self.lanelet_id" % xv) in pos, ("%s >= %s" % (lv, rng)) in neg or ("%s < %s" % (lv, rng)) in pos or ("%s <= %s" % (rng, lv)) in neg))
         sigs[fname] = (m, fn, (sorted(ext_sig), sorted(counts)))
     if len(sigs) == 2:
         (m1, f1, s1), (m2, f2, s2) = sigs.values()
